@@ -193,28 +193,41 @@ func (ctx *context) ResolveAndCompile(pathname string, opts py.CompileOpts) (py.
 }
 
 func (ctx *context) pushBusy() error {
+	verifYield(ctx, "push.enter")
 	if ctx.closed {
 		return py.ExceptionNewf(py.RuntimeError, "Context closed")
 	}
+	verifYield(ctx, "push.checked")
 	ctx.running.Add(1)
+	verifYield(ctx, "push.added")
 	return nil
 }
 
 func (ctx *context) popBusy() {
+	verifYield(ctx, "pop.enter")
 	ctx.running.Done()
+	verifYield(ctx, "pop.done")
 }
 
 // See interface py.Context defined in py/run.go
 func (ctx *context) Close() error {
+	verifYield(ctx, "close.enter")
 	ctx.closeOnce.Do(func() {
+		verifYield(ctx, "close.begin")
 		ctx.closing = true
+		verifYield(ctx, "close.marked")
 		ctx.running.Wait()
+		verifYield(ctx, "close.waited")
 		ctx.closed = true
+		verifYield(ctx, "close.closed")
 
 		// Give each module a chance to release resources
 		ctx.store.OnContextClosed()
+		verifYield(ctx, "close.callbacks")
 		close(ctx.done)
+		verifYield(ctx, "close.done")
 	})
+	verifYield(ctx, "close.return")
 	return nil
 }
 
